@@ -102,6 +102,7 @@ fn main() {
         "C12" => dispatch(checks::c12::C12, tier, seed, replay),
         "C13" => dispatch(checks::c13::C13, tier, seed, replay),
         "C15" => dispatch(checks::c15::C15, tier, seed, replay),
+        "C16" => dispatch(checks::c16::C16, tier, seed, replay),
         "C17" => dispatch(checks::c17::C17, tier, seed, replay),
         "C18" => dispatch(checks::c18::C18, tier, seed, replay),
         "C19" => dispatch(checks::c19::C19, tier, seed, replay),
